@@ -19,6 +19,7 @@ REQUIRED_THEOREMS = [
     'Properties.C18.sample_and_log_prob_shapes_match', 'Properties.C18.flow_sample_and_log_prob_shapes_match',
     'Properties.C18.flow_meets_contract', 'Properties.C18.stdNormal_meets_contract',
     'Properties.C18.batchLayout_spec',
+    'Properties.C18.sample_is_cat_of_pieces', 'Properties.C18.sample_pieces_have_batch_sizes', 'Properties.C18.sample_values_shape_is_sample', 'Properties.C18.sample_values_follow_batch_layout', 'Properties.C18.sample_values_draw_position', 'Properties.C18.sample_values_batched_eq_unbatched',
 ]
 RULE = ("exhaustive grid: every cheaply constructible Distribution/Flow configuration (StandardNormal, ConditionalDiagonalNormal, "
         "DiagonalNormal, ConditionalIndependentBernoulli, MADEMoG, Flow over StandardNormal / ConditionalDiagonalNormal with a "
